@@ -1,7 +1,7 @@
 (* C08 - lemmas about the model (Model.v) over the libraries Varint, Protobuf,
    Digits, Base58, SymCrypto. *)
 From Coq Require Import List NArith ZArith Lia Bool Arith.
-From Verif Require Import c08.Varint c08.Protobuf c08.Digits c08.Base58 c08.Model.
+From Verif Require Import c08.Varint c08.Protobuf c08.Digits c08.Base58 c08.Model gen.Consts_c08.
 Import ListNotations.
 Local Open Scope N_scope.
 
@@ -202,4 +202,18 @@ Proof.
     rewrite (decode_mf_encode 114) by reflexivity.
     rewrite Hv. unfold LIBP2P_KEY. rewrite N.eqb_refl. reflexivity.
   - rewrite Hcb. constructor; [unfold byte_ok; lia|]. constructor; [unfold byte_ok; lia|exact Hok].
+Qed.
+
+(* ---- RSA size range ---------------------------------------------------------------------- *)
+Lemma rsa_size_ok_iff : forall mn mx bits, rsa_size_ok mn mx bits = true <-> mn <= bits /\ bits <= mx.
+Proof.
+  intros mn mx bits. unfold rsa_size_ok. rewrite andb_true_iff, !negb_true_iff, !N.ltb_ge. reflexivity.
+Qed.
+
+Lemma rsa_size_range_l :
+  (minRsaKeyBits = 2048 /\ maxRsaKeyBits = 8192)%Z /\
+  forall bits, rsa_size_ok (Z.to_N minRsaKeyBits) (Z.to_N maxRsaKeyBits) bits = true <->
+               2048 <= bits /\ bits <= 8192.
+Proof.
+  split; [split; reflexivity|]. intros bits. rewrite rsa_size_ok_iff. reflexivity.
 Qed.
